@@ -1114,13 +1114,11 @@ impl Rasn {
             match ty {
                 ASN1Type::Null => Ok(quote!(())),
                 ASN1Type::Boolean(_) => Ok(quote!(bool)),
-                ASN1Type::Integer(_) => {
-                    match first_item {
-                        Some(ASN1Value::LinkedIntValue { integer_type, .. }) => {
-                            Ok(integer_type.to_token_stream())
-                        }
-                        _ => Ok(quote!(Integer)), // best effort
-                    }
+                // the element type's own constraint decides: the first item may be a reference
+                // to a value of a narrower type
+                ASN1Type::Integer(i) => {
+                    let _ = first_item;
+                    Ok(i.int_type().to_token_stream())
                 }
                 ASN1Type::BitString(_) => Ok(quote!(BitString)),
                 ASN1Type::OctetString(_) => Ok(quote!(OctetString)),
